@@ -16,7 +16,7 @@ def loaders(ctx):
     for name, fi in ci.methods.items():
         if not fi.is_classmethod:
             continue
-        if any(isinstance(c.func, ast.Attribute) and c.func.attr == 'from_cache' for c in calls_in(fi.node)):
+        if any(isinstance(c.func, ast.Attribute) and c.func.attr == 'to_cache' for c in calls_in(fi.node)):
             out.append(fi)
     return out
 
@@ -43,22 +43,34 @@ def check_loader(ctx, fi):
     fnode = fi.node
     pm = parent_map(fnode)
     cfg = ctx.cfg(fi.qualname)
+    # the loader and the private helpers it calls (a cache-reading helper may hold the read and its try)
+    helpers = {}
+    for e in it.events:
+        if e['tag'] == 'call' and e['where'] is not None and e['where'].qualname == fi.qualname and e['callee'] in ctx.p.functions:
+            name_ = e['callee'].split('.')[-1]
+            if name_.startswith('_') and not name_.startswith('__'):
+                helpers[e['callee']] = ctx.p.functions[e['callee']]
+    readers = [fi] + list(helpers.values())
     from_cache_calls = [c for c in calls_in(fnode) if isinstance(c.func, ast.Attribute) and c.func.attr == 'from_cache']
+    helper_reads = [(h, c) for h in helpers.values() for c in calls_in(h.node) if isinstance(c.func, ast.Attribute) and c.func.attr == 'from_cache']
     to_cache_calls = [c for c in calls_in(fnode) if isinstance(c.func, ast.Attribute) and c.func.attr == 'to_cache']
     exists_calls = [c for c in calls_in(fnode) if isinstance(c.func, ast.Attribute) and c.func.attr == 'exists']
+    if not from_cache_calls and not helper_reads:
+        ctx.ob('R3', fi, fi.node.name, None, 'no read of the cache found in the loader or its helpers')
 
     # ---------------- R3 exception discipline
-    for c in from_cache_calls:
-        st = stmt_of(pm, c)
+    for owner, c in [(fi, c) for c in from_cache_calls] + helper_reads:
+        pm_ = pm if owner is fi else parent_map(owner.node)
+        st = stmt_of(pm_, c)
         tries = []
         n = st
         while n is not None:
-            par = pm.get(id(n))
+            par = pm_.get(id(n))
             if isinstance(par, ast.Try) and any(n is b for b in par.body):
                 tries.append(par)
             n = par
         if not tries:
-            ctx.ob('R3', fi, c, False, 'cache read is not protected by a try: an unreadable cache file aborts the load')
+            ctx.ob('R3', owner, c, False, 'cache read is not protected by a try: an unreadable cache file aborts the load')
             continue
         t = tries[0]
         broad = False
@@ -76,18 +88,23 @@ def check_loader(ctx, fi):
                 broad = True
                 for sub in h.body:
                     for w in walk_no_nested(sub):
-                        if isinstance(w, (ast.Raise, ast.Return)):
-                            bad = f'the broad handler {"re-raises" if isinstance(w, ast.Raise) else "returns"} instead of falling back to the source files'
+                        if isinstance(w, ast.Raise):
+                            bad = 'the broad handler re-raises instead of falling back to the source files'
+                        elif isinstance(w, ast.Return):
+                            rv = it.value_of(w.value) if w.value is not None else None
+                            from_pickle = rv is not None and (rv.ty == 'unpickled' or bool(rv.prov and 'pickle' in rv.prov))
+                            if owner is fi or from_pickle:
+                                bad = 'the broad handler returns instead of falling back to the source files'
                 break  # a narrow handler before the broad one does not matter; first broad handler decides
         if not broad:
             have = ', '.join(norm_text(h.type) if h.type is not None else '<bare>' for h in t.handlers)
-            ctx.ob('R3', fi, c, False, f'handler(s) `{have}` do not catch every failure of reading a truncated / '
+            ctx.ob('R3', owner, c, False, f'handler(s) `{have}` do not catch every failure of reading a truncated / '
                                         f'unreadable cache (pickle raises EOFError, UnpicklingError, AttributeError, ...)')
         elif bad:
-            ctx.ob('R3', fi, c, False, bad)
+            ctx.ob('R3', owner, c, False, bad)
         else:
             # fall-through must reach the parse: the handler end must reach a later statement of the function
-            ctx.ob('R3', fi, c, True, 'broad handler, falls through to the parse')
+            ctx.ob('R3', owner, c, True, 'broad handler, falls through to the parse')
 
     # ---------------- R2 same path, write on every path
     path_names = set()
@@ -96,6 +113,18 @@ def check_loader(ctx, fi):
             path_names.add(c.args[0].id)
         elif c.args:
             path_names.add(norm_text(c.args[0]))
+    for h_, c_ in helper_reads:
+        # the path the helper reads is its parameter: the argument given at the call in the loader
+        hp = h_.params()
+        for e in it.events:
+            if e['tag'] == 'call' and e['callee'] == h_.qualname and e['where'] is not None and e['where'].qualname == fi.qualname:
+                arg0 = c_.args[0] if c_.args else None
+                if isinstance(arg0, ast.Name) and arg0.id in hp and isinstance(e['node'], ast.Call):
+                    pos = [x for x in hp if x not in ('cls', 'self')].index(arg0.id)
+                    call = e['node']
+                    an = call.args[pos] if pos < len(call.args) else next((k.value for k in call.keywords if k.arg == arg0.id), None)
+                    if an is not None:
+                        path_names.add(an.id if isinstance(an, ast.Name) else norm_text(an))
     for c in exists_calls:
         # Path(cache).exists()
         recv = c.func.value
@@ -111,7 +140,7 @@ def check_loader(ctx, fi):
         return
     pname = next(iter(path_names))
     # no rebinding of the path variable after the first read
-    first_read = min((c.lineno for c in from_cache_calls + exists_calls), default=None)
+    first_read = min([c.lineno for c in from_cache_calls + exists_calls] + [e['node'].lineno for e in it.events if e['tag'] == 'call' and e['callee'] in helpers and e['where'] is not None and e['where'].qualname == fi.qualname and any(h is helpers[e['callee']] for h, _ in helper_reads)], default=None)
     rebinds = [n for n in walk_no_nested(fnode) if isinstance(n, ast.Name) and n.id == pname and isinstance(n.ctx, ast.Store)
                and first_read is not None and n.lineno > first_read]
     if rebinds:
@@ -126,6 +155,10 @@ def check_loader(ctx, fi):
         st = stmt_of(pm, c)
         if isinstance(st, ast.Return):
             blockers.add(cfg.node_of(st))
+    for rid, rnode in cfg.returns():
+        rv = it.value_of(rnode.value) if rnode.value is not None else None
+        if rv is not None and (rv.ty == 'unpickled' or bool(rv.prov and 'pickle' in rv.prov)):
+            blockers.add(rid)  # returns what was read from the cache
     for i, d in enumerate(cfg.nodes):
         if d[0] == 'edge' and isinstance(d[1], ast.expr):
             v = it.value_of(d[1])
